@@ -182,6 +182,23 @@ pub fn token_mutants(p: &TokenParts, assertion_supported: bool, seed: u64, full_
         push(mid("assertion-append", i, 0), p.payload.to_vec(), p.footer.to_vec(), a);
         push(mid("assertion-replace", i, 0), p.payload.to_vec(), p.footer.to_vec(), extra.to_vec());
     }
+    // 8. correlated changes inside the nonce, the body, the tag / signature and the footer
+    {
+        let regions = [(0usize, p.prefix.min(pl)), (body_start, body_end), (body_end, pl)];
+        for (ri, (a, b)) in regions.iter().enumerate() {
+            if a < b {
+                for m in correlated(&p.payload[*a..*b]) {
+                    let mut x = p.payload[..*a].to_vec();
+                    x.extend_from_slice(&m.1);
+                    x.extend_from_slice(&p.payload[*b..]);
+                    push(mid(&format!("correlated-{}", m.0), ri, m.2), x, p.footer.to_vec(), p.assertion.to_vec());
+                }
+            }
+        }
+        for m in correlated(p.footer) {
+            push(mid(&format!("correlated-footer-{}", m.0), 0, m.2), p.payload.to_vec(), m.1, p.assertion.to_vec());
+        }
+    }
     // 7. interior deletions at the field boundaries (the total shrinks, both ends stay)
     for (bi, b) in [p.prefix.min(pl), body_end].iter().enumerate() {
         for k in 1..=3usize {
@@ -196,6 +213,64 @@ pub fn token_mutants(p: &TokenParts, assertion_supported: bool, seed: u64, full_
                 push(mid("delete-before-boundary", bi * 16 + k, 0), x, p.footer.to_vec(), p.assertion.to_vec());
             }
         }
+    }
+    out
+}
+
+/// correlated modifications of one field: (class, new bytes, arg)
+pub fn correlated(field: &[u8]) -> Vec<(&'static str, Vec<u8>, usize)> {
+    let n = field.len();
+    let mut out = Vec::new();
+    let mut add = |class: &'static str, v: Vec<u8>, arg: usize| {
+        if v != field {
+            out.push((class, v, arg));
+        }
+    };
+    if n >= 16 {
+        let words = n / 8;
+        for (i, j) in [(0usize, 1usize), (0, words - 1), (1, words - 1)] {
+            if i < j && j < words {
+                let mut v = field.to_vec();
+                for k in 0..8 {
+                    v.swap(8 * i + k, 8 * j + k);
+                }
+                add("word-swap", v, i * 64 + j);
+            }
+        }
+        for d in [8usize, 16, 24] {
+            if d < n {
+                let mut v = field.to_vec();
+                v[0] ^= 1;
+                v[d] ^= 1;
+                add("paired-bit-flip", v, d);
+                let mut v2 = field.to_vec();
+                v2[n - 1] ^= 0x80;
+                v2[n - 1 - d] ^= 0x80;
+                add("paired-bit-flip", v2, 1000 + d);
+            }
+        }
+        // 4-byte words as well
+        let mut v = field.to_vec();
+        for k in 0..4 {
+            v.swap(k, 4 + k);
+        }
+        add("halfword-swap", v, 0);
+    }
+    if n >= 2 {
+        let mut v = field.to_vec();
+        v.swap(0, 1);
+        add("byte-swap", v, 0);
+        let mut v2 = field.to_vec();
+        v2.swap(n - 2, n - 1);
+        add("byte-swap", v2, 1);
+        // byte sums preserved: +1 / -1 on neighbours
+        let mut v3 = field.to_vec();
+        v3[0] = v3[0].wrapping_add(1);
+        v3[1] = v3[1].wrapping_sub(1);
+        add("sum-preserving", v3, 0);
+        let mut v4 = field.to_vec();
+        v4.reverse();
+        add("reversed", v4, 0);
     }
     out
 }
@@ -282,6 +357,18 @@ pub fn blob_mutants(blob: &[u8], boundaries: &[usize], full_limit: usize, edge: 
             let mut x = blob.to_vec();
             x[*b] = v;
             push(mid("set-field-first-byte", bi, v as usize), x);
+        }
+    }
+    // correlated changes inside one field (a comparison that folds differences - XOR of words, sum
+    // of bytes - instead of OR-ing them is blind to exactly these): words / bytes exchanged, the same
+    // bit flipped in two bytes 8, 16 or 24 apart
+    for (fi, w) in bs.windows(2).enumerate() {
+        let (a, b) = (w[0], w[1]);
+        for m in correlated(&blob[a..b]) {
+            let mut x = blob[..a].to_vec();
+            x.extend_from_slice(&m.1);
+            x.extend_from_slice(&blob[b..]);
+            push(mid(&format!("correlated-{}", m.0), fi, m.2), x);
         }
     }
     // interior deletions: 1..3 bytes removed right after / right before every field boundary,
